@@ -116,4 +116,20 @@ PROPS = {
         seq=[],
         rule="(T correspondence pending)",
     ),
+    "C03": dict(
+        lean=["GolibsVerif.Props.C03"],
+        seq=[dict(comp="kvinmem", driver="kv", args=["-focus", "C03"]), dict(comp="kvredis", driver="kv", args=["-focus", "C03"])],
+        rule="cases = timed histories of Storage calls run on BOTH backends (in-memory; Redis through in-process miniredis) under a virtual clock: every op kind as the first one after an expiry (3 expiry kinds x 5 time advances), fixed contract scripts (repeated keys in GetMany/PutMany, empty GetMany/PutMany, nil/empty values, glob patterns), exhaustive sequences to depth 3 (quick) / 4 (thorough) over a 12-op alphabet, random histories of 5..60 ops over keys {a,b,ab,zz/1}, CAS/Wait with current/older/never-issued versions; in-memory additionally with unconstrained times (expiry == now, already expired at write); Redis additionally with leading-'/' keys (known finding KF-2); versions compared up to renaming by first occurrence; non-trivial = a read after a write of the same key, or an op on a key whose expiry has passed; distinct by hash of the op list",
+        assumptions=["Redis: keys/patterns do not start with '/', every written expiry lies in the future, no operation exactly at an expiry instant (1 ms TTL resolution) — RedisOK", "glob subset: literals, '*', '?'", "nil and empty values are the same value; a record returned alongside an error is not compared"],
+        trusted=["modelled, not verified: protobuf record codec, go-redis, miniredis' Redis semantics (SET NX/PX, MSET, MGET, DEL, SCAN MATCH, TTL via FastForward), gobwas/glob; ULID generator = never repeats", "time.Now() in inmem.go / redis.go redirected to a virtual clock by the textual instrumenter (overlay of the CURRENT source)"],
+        explanation="C03.inmem_refines_spec / redis_refines_spec / backends_agree for every timed history; contract facts (create_reports_stored_version, cas_outcomes, get_after_put)",
+    ),
+    "C06": dict(
+        lean=["GolibsVerif.Props.C06"],
+        seq=[dict(comp="kvinmem", driver="kv", args=["-focus", "C06"]), dict(comp="kvredis", driver="kv", args=["-focus", "C06"])],
+        rule="same histories as C03 (without the leading-'/' stream); the first block forces EVERY operation kind (Get, GetMany, CasByVersion, Delete, Create, ListKeys, WaitForVersionChange, Put, PutMany) to be the first one to touch a key whose short / long / absent expiry has or has not passed; non-trivial = first op on an expired key, or read after write; distinct by hash of the op list",
+        assumptions=["as C03"],
+        trusted=["as C03"],
+        explanation="C06.expired_eq_deleted_spec (whole continuations indistinguishable), expired_outcomes, never_dropped_early on the contract; both I-models inherit them through the C03 refinements",
+    ),
 }
